@@ -455,6 +455,7 @@ type jobStats struct {
 	execs, stores, earlyHits, hitsOwn, hitsForeign, misses2, shared int64
 	bypassOK, notReached, roundtrip                                 int64
 	normal                                                          int64
+	missBy                                                          map[uint32]int64 // pass-2 misses by type<<16|class
 }
 
 func (r *runner) run() jobStats {
@@ -525,12 +526,19 @@ func (r *runner) run() jobStats {
 					st.stores++
 				} else {
 					st.misses2++
+					noteCached(s, false)
+					if st.missBy == nil {
+						st.missBy = map[uint32]int64{}
+					}
+					st.missBy[uint32(s.Type)<<16|uint32(s.Class)]++
 				}
 				continue
 			}
 			// answered from cache
 			if pass == 1 {
 				st.earlyHits++
+			} else {
+				noteCached(s, true)
 			}
 			m := o.marker
 			if m < 0 || m >= n {
@@ -614,6 +622,89 @@ func (r *runner) caseFor(idx []int) replayCase {
 	return c
 }
 
+// ---- which questions this tree caches at all ---------------------------------
+//
+// The statement is about entries that are shared; a tree may legitimately decide
+// not to cache some kinds of question at all (meta types, class 0, ...). A miss
+// is therefore only suspicious - "collisions could hide behind it" - when
+// questions of its type and of its class are answered from the cache elsewhere
+// in the run. asked/hit are counted per type and per class over the whole run;
+// the vacuity guards are evaluated when all jobs are done.
+var (
+	typeAsked, typeHit   [65536]atomic.Int32
+	classAsked, classHit [65536]atomic.Int32
+)
+
+func noteCached(s *qspec, hit bool) {
+	typeAsked[s.Type].Add(1)
+	classAsked[s.Class].Add(1)
+	if hit {
+		typeHit[s.Type].Add(1)
+		classHit[s.Class].Add(1)
+	}
+}
+
+// neverCached: no question of this type (or of this class) was answered from a
+// cache anywhere in the run although at least four were asked again.
+func neverCached(tc uint32) bool {
+	t, c := tc>>16, tc&0xffff
+	return (typeAsked[t].Load() >= 4 && typeHit[t].Load() == 0) || (classAsked[c].Load() >= 4 && classHit[c].Load() == 0)
+}
+
+// pendingGuard is one deferred vacuity guard: expected answers from a cache, and
+// the misses among them by (type, class).
+type pendingGuard struct {
+	label  string
+	tail   string
+	normal int64
+	misses map[uint32]int64
+}
+
+var (
+	guardMu sync.Mutex
+	guards  []pendingGuard
+)
+
+func deferGuard(label, tail string, normal int64, misses map[uint32]int64) {
+	if len(misses) == 0 {
+		return
+	}
+	guardMu.Lock()
+	guards = append(guards, pendingGuard{label, tail, normal, misses})
+	guardMu.Unlock()
+}
+
+// judgeGuards runs when every job is done. It returns the smallest hit ratio
+// (permille) among the questions this tree caches.
+func judgeGuards() (minRatio int64, uncachedQueries int64, uncachedCells int) {
+	minRatio = 1000
+	cells := map[uint32]bool{}
+	for _, g := range guards {
+		var unexplained, explained int64
+		for tc, n := range g.misses {
+			if neverCached(tc) {
+				explained += n
+				cells[tc] = true
+			} else {
+				unexplained += n
+			}
+		}
+		uncachedQueries += explained
+		den := g.normal - explained
+		if den <= 0 {
+			continue
+		}
+		ratio := (den - unexplained) * 1000 / den
+		if ratio < minRatio {
+			minRatio = ratio
+		}
+		if ratio < 990 {
+			rep.Inconclusive("%s: only %d of %d ordinary queries of kinds this tree caches were answered from the cache (< 99%%)%s", g.label, den-unexplained, den, g.tail)
+		}
+	}
+	return minRatio, uncachedQueries, len(cells)
+}
+
 // ----------------------------------------------------------------------- main
 
 func main() {
@@ -671,7 +762,6 @@ func main() {
 	var mu sync.Mutex
 	var total jobStats
 	var totalReload reloadStats
-	minRatio := int64(1000)
 	var jobs atomic.Int64
 	famSizes := map[string]int{}
 	runTask := func(t task) {
@@ -728,14 +818,8 @@ func main() {
 		total.normal += st.normal
 		famSizes[t.fam.Name] = len(specs)
 		if st.normal > 0 {
-			hits2 := st.normal - st.misses2
-			ratio := hits2 * 1000 / st.normal
-			if ratio < minRatio {
-				minRatio = ratio
-			}
-			if ratio < 990 {
-				rep.Inconclusive("family %s (%s order): only %d of %d ordinary queries were answered from the cache in pass 2 (< 99%%): collisions could hide behind misses", t.fam.Name, []string{"insertion", "reverse"}[t.order], hits2, st.normal)
-			}
+			// st.normal counts both passes; pass 2 asked half of them
+			deferGuard(fmt.Sprintf("family %s (%s order), pass 2", t.fam.Name, []string{"insertion", "reverse"}[t.order]), ": collisions could hide behind misses", st.normal/2, st.missBy)
 		}
 	}
 	// the first family (a handful of textbook questions) runs alone so that its
@@ -787,7 +871,13 @@ func main() {
 	rep.Count("bypass_messages_forwarded_without_response", total.bypassOK)
 	rep.Count("ordinary_queries_where_terminal_was_not_reached", total.notReached)
 	rep.Count("Q_roundtrip_checked", total.roundtrip)
-	rep.Count("min_pass2_hit_permille", minRatio)
+	minRatio, uncachedQ, uncachedCells := judgeGuards()
+	rep.Count("min_hit_permille_among_cached_kinds", minRatio)
+	rep.Count("queries_of_a_type_or_class_this_tree_never_caches", uncachedQ)
+	rep.Count("type_class_cells_this_tree_never_caches", int64(uncachedCells))
+	if total.normal > 0 && (total.hitsOwn+total.shared)*4 < total.normal/2*3 {
+		rep.Inconclusive("only %d of %d replayed ordinary queries were answered from a cache (< 75%%): this tree caches too little of the space for the check to mean anything", total.hitsOwn+total.shared, total.normal/2)
+	}
 	names := make([]string, 0, len(famSizes))
 	for k := range famSizes {
 		names = append(names, k)
